@@ -111,7 +111,8 @@ def main(pid):
             if ob["outcome"] == "ok":
                 batch.append({"id": oid, "inst": ob["inst"], "opts": opts, "events": ob["scan"]["events"],
                               "includes": ob["scan"]["includes"],
-                              "export": [l for l in ob["scan"]["export"].split("\n") if l.strip()]})
+                              "export": [l for l in ob["scan"]["export"].split("\n") if l.strip()],
+                              "spell": ob.get("spell", [])})
             elif ob["outcome"] == "unscannable" and pid == "C03":
                 # a construct the scanner cannot read: a C09 matter if unbalanced, otherwise machinery
                 if ob["balanced"]:
